@@ -169,7 +169,7 @@ def case_sets(ctx, H, W, kernels):
 BODIES = {"case_sets": body_sets}
 
 
-def cases(tier):
+def _cases(tier):
     cap = 12 if tier == "quick" else 16
     ks = KERNELS_Q if tier == "quick" else KERNELS_Q + [(5, 5)]
     out = []
@@ -367,3 +367,8 @@ def case_merged(ctx, H, W, kernels, parts=("blurring", "edge", "border")):
 
 
 BODIES["case_merged"] = body_merged
+
+
+def cases(tier):
+    cs = _cases(tier)
+    return [c for c in cs if c[0] == "case_merged"] + [c for c in cs if c[0] != "case_merged"]     # long single-path cases first
